@@ -91,6 +91,27 @@ theorem source_shape :
     by decide, by decide +kernel, by decide, by decide, by decide, by decide, by decide, by decide, by decide, by decide⟩
   intro t; cases t <;> decide
 
+/-- Tie to the source (wave 5): the line state machine of `preprocess_included_file` (what is a line, what is a directive:
+a `#` met at the start of a line, blanks skipped between `#` and the directive name, a line end met before a directive name
+-- the null directive -- goes to `active_tokens`), the operand forms of `#include` (`Line.incl` for a string literal AND a
+header name), and the arms that reject a directive whatever the state (`Line.rejected`). -/
+theorem source_shape_directive_forms :
+    lineStateArms =
+      ["(Token::Endline, CommandParseState::CommandContents)",
+       "(Token::Endline, _) => { command_state = CommandParseState::StartOfLine; active_tokens.push(next) }",
+       "(Token::Hash, CommandParseState::StartOfLine)",
+       "(tok, CommandParseState::CommandStart) if !tok.is_whitespace()",
+       "(tok, CommandParseState::StartOfLine)",
+       "_ => active_tokens.push(next)"] ∧
+    includeOperand =
+      "[PreprocessToken(Token::LiteralString(s), _)] => s.clone(), [PreprocessToken(Token::HeaderName(s), _)] => s.clone(), _ => return Err(PreprocessError::InvalidInclude(command_location))," ∧
+    rejectingArms =
+      ["_ if skip => return Ok(()), _ => return Err(PreprocessError::UnknownCommand(command_location)),",
+       "_ => Err(PreprocessError::UnknownPragma(ext.get_location())),",
+       "else { Err(PreprocessError::UnknownPragma( pragma_command.first().get_location(), )) }",
+       "_ if skip => Ok(()), _ => Err(PreprocessError::UnknownCommand(command_location)),"] := by
+  refine ⟨by decide +kernel, by decide +kernel, by decide +kernel⟩
+
 /-! ## Termination -/
 
 /-- **expand_terminates.** `applyLoop` -- the `while` loop of `apply_macros_internal` together with the recursive
